@@ -73,53 +73,53 @@ def run(ck):
     ]
     exe = rot.build()
     # ---- 1. design level: the contract holds on the transcription for every history up to the bound
-    d_i, d_d = (7, 6) if quick else (9, 7)
+    d_i, d_d, d_t = (7, 6, 5) if quick else (9, 7, 7)
     sizes = "{1, 3, 5}" if quick else "{1, 2, 3, 5}"
-    jobs = [("MC_C14_index", rot.mc_cfg("MC_C14_index", Schemes="{0}", MaxOps=d_i, Sizes=sizes), dict(timeout=1500)),
-            ("MC_C14_coverage", rot.mc_cfg("MC_C14_coverage", Schemes="{0, 1}", MaxOps=4), dict(coverage=True, timeout=600)),
-            ("MC_C14_date", rot.mc_cfg("MC_C14_date", Schemes="{1}", MaxOps=d_d, Tolerated=TOL), dict(timeout=1500)),
-            ("MC_C14_datetime", rot.mc_cfg("MC_C14_datetime", Schemes="{2}", MaxOps=d_d, Tolerated=TOL), dict(timeout=1500)),
-            ("MC_C14_witness", rot.mc_cfg("MC_C14_witness", Schemes="{1, 2}", MaxOps=6), dict(timeout=600))]
+    REACH = ("NoRotation", "NoDeletion", "NoStop", "NoRecovery")
+    d_e = 5
+    jobs = [("MC_C14_index", rot.mc_cfg("MC_C14_index", export=True, Schemes="{0}", MaxOps=d_i, Sizes=sizes, ExportDepth=d_e), dict(timeout=1700), 3 if quick else 4),
+            ("MC_C14_date", rot.mc_cfg("MC_C14_date", export=True, Schemes="{1}", MaxOps=d_d, Tolerated=TOL, ExportDepth=d_e), dict(timeout=1700), 5 if quick else 6),
+            ("MC_C14_datetime", rot.mc_cfg("MC_C14_datetime", export=True, Schemes="{2}", MaxOps=d_t, Tolerated=TOL, ExportDepth=d_e), dict(timeout=1700), 6),
+            ("MC_C14_coverage", rot.mc_cfg("MC_C14_coverage", Schemes="{0, 1}", MaxOps=4), dict(coverage=True, timeout=600), 1),
+            ]
+    # the deviations tolerated above, as TLC counterexamples (one per scheme and clause): replayed on the real sink below
+    WIT = [(f"MC_C14_witness_{'DT'[sc - 1]}_{n}", sc, tol) for sc in (1, 2) for n, tol in ((0, "{}"), (1, '{"count_after_restart"}'))]
+    jobs += [(lbl, rot.mc_cfg(lbl, Schemes="{%d}" % sc, MaxOps=6, Tolerated=tol), dict(timeout=600), 1) for lbl, sc, tol in WIT]
+    jobs += rot.reach_jobs(ck, dict(Schemes="{0, 1}", MaxOps=6), REACH)
     res = dict(rot.tlc_parallel(jobs))
     rot.coverage_selftest(res["MC_C14_coverage"])
     ck.add_tlc(res["MC_C14_coverage"], "MC_C14_coverage")
     for lbl in ("MC_C14_index", "MC_C14_date", "MC_C14_datetime"):
-        rot.must_hold(ck, lbl, res[lbl])
-    w = res["MC_C14_witness"]
-    ck.add_tlc(w, "MC_C14_witness")
-    ck.extra["model_counterexample_without_tolerance"] = (
-        {"violated": w.violated, "clauses": w.trace[-1]["c"]["why"], "cf": w.trace[-1]["cf"],
-         "history": [[h["op"], h["mode"], h["t"], h["id"], h["sz"]] for h in w.trace[-1]["hist"]]} if w.violated and w.trace else None)
-    rot.reach_selftest(ck, dict(Schemes="{0, 1}", MaxOps=6))
+        rot.must_hold(ck, lbl, res[lbl], count=False)
+    witnesses = []
+    for lbl, sc, tol in WIT:
+        w = res[lbl]
+        ck.add_tlc(w, lbl)
+        if w.violated and w.trace:
+            witnesses.append({"cf": w.trace[-1]["cf"], "ops": w.trace[-1]["hist"], "clauses": w.trace[-1]["c"]["why"]})
+    ck.extra["model_counterexamples_without_tolerance"] = [
+        {"cf": x["cf"], "clauses": x["clauses"], "history": [[h["op"], h["mode"], h["t"], h["id"], h["sz"]] for h in x["ops"]]} for x in witnesses]
+    rot.reach_check(ck, res, REACH)
     ck.exhaustive = True
-    ck.extra["model_bounds"] = {"index_depth": d_i, "date_depth": d_d, "sizes": sizes, "limit": 4, "restarts": 2,
+    ck.extra["model_bounds"] = {"index_depth": d_i, "date_depth": d_d, "datetime_depth": d_t, "sizes": sizes, "limit": 4, "restarts": 2,
                                 "tolerated_in_model": "count/deleted after an append restart for Date and DateAndTime (known deviation, judged on the real code)"}
     # ---- 2. behaviours: all complete histories to the export depth
-    d_e = 5
-    ejobs = [(f"Export_C14_{s}", rot.mc_cfg(f"Export_C14_{s}", invariants=("TypeOK",), export=True, Schemes="{%d}" % s, MaxOps=d_e),
-              dict(timeout=1500)) for s in (0, 1, 2)]
-    behs = []
-    for lbl, r in rot.tlc_parallel(ejobs):
-        b = vlib.behaviours(r)
-        if len(b) < 1000:
-            raise vlib.Infra(f"behaviour export {lbl} produced too few histories ({len(b)})")
-        r.out = ""
-        ck.add_tlc(r, lbl)
-        behs.append(b)
+    behs = [rot.take_behaviours(ck, res, lbl) for lbl in ("MC_C14_index", "MC_C14_date", "MC_C14_datetime")]
     ck.extra["histories_exported_by_tlc"] = sum(len(b) for b in behs)
-    cap = 9000 if quick else None
+    cap = 6000 if quick else None
     chosen = []
     for b in behs:
         if cap and len(b) > cap:
-            # keep every history with a restart on a later date first (where the schemes differ), sample the rest
             b = rng.sample(b, cap)
         chosen += b
     gmt = rot.Mapping(datetime(2023, 6, 12, 0, 0), 43200, "G", "GMT", daylen=2, dayoff=0)
     nyc = rot.Mapping(datetime(2024, 3, 9, 0, 0), 43200, "L", "America/New_York", daylen=2, dayoff=0)
     items, k = [], 0
+    for x in witnesses:
+        items.append(rot.from_behaviour(k, x, gmt)); k += 1
     for i, b in enumerate(chosen):
         items.append(rot.from_behaviour(k, b, gmt, pre=rot.UNREL[:2] if i % 3 == 0 else ())); k += 1
-        if not quick or i % 6 == 0:
+        if i % (6 if quick else 3) == 0:
             items.append(rot.from_behaviour(k, b, nyc, limit_bytes=1024, pre=rot.UNREL[2:] if i % 4 == 0 else ())); k += 1
     n_tlc = len(items)
     nrand = 1500 if quick else 30000
